@@ -61,8 +61,14 @@ func canHold(t, rt types.Type, depth int) bool {
 		return false
 	case *types.Array:
 		return canHold(u.Elem(), rt, depth+1)
-	case *types.Signature, *types.Chan:
-		return true // closures / channels may carry anything
+	case *types.Signature:
+		// function values represented as terms come from outside (parameters,
+		// results of unknown calls); closures created by the verified
+		// function are engine-level values, and their bindings escape when
+		// such a closure is stored into memory (see Store)
+		return false
+	case *types.Chan:
+		return true
 	}
 	return true
 }
